@@ -290,30 +290,37 @@ func startsAtZero(v ssa.Value) bool {
 // ruleNALLOPS: both passes of ExpandNamedUUIDs visit every operation.
 func ruleNALLOPS(p *Program, r *Reporter) {
 	const id = "N-ALLOPS"
-	fn := p.Fn("ovsdb", "", "ExpandNamedUUIDs")
-	if fn == nil || len(fn.Params) == 0 {
+	root := p.Fn("ovsdb", "", "ExpandNamedUUIDs")
+	if root == nil || len(root.Params) == 0 {
 		r.Anchor(id, "ovsdb.ExpandNamedUUIDs")
 		return
 	}
-	ops := fn.Params[0]
 	n := 0
-	for _, b := range fn.Blocks {
-		for _, ins := range b.Instrs {
-			ia, ok := ins.(*ssa.IndexAddr)
-			if !ok || ia.X != ssa.Value(ops) {
+	for fn := range p.PrivateRegion(root) {
+		for _, ops := range fn.Params {
+			sl, ok := ops.Type().Underlying().(*types.Slice)
+			if !ok || !isNamed(sl.Elem(), repoMod+"/ovsdb", "Operation") {
 				continue
 			}
-			if _, isC := ia.Index.(*ssa.Const); isC {
-				continue
+			for _, b := range fn.Blocks {
+				for _, ins := range b.Instrs {
+					ia, ok := ins.(*ssa.IndexAddr)
+					if !ok || ia.X != ssa.Value(ops) {
+						continue
+					}
+					if _, isC := ia.Index.(*ssa.Const); isC {
+						continue
+					}
+					n++
+					ok2 := startsAtZero(ia.Index)
+					r.Ob(id, funcName(fn), "loop over ops", ia.Pos(), ok2, true,
+						ifs(ok2, "the loop visits the operations from the first one", "the loop over the operations does not start at the first operation: names used in the skipped operations stay unresolved (and their tables/columns unvalidated)"))
+				}
 			}
-			n++
-			ok2 := startsAtZero(ia.Index)
-			r.Ob(id, funcName(fn), "loop over ops", ia.Pos(), ok2, true,
-				ifs(ok2, "the loop visits the operations from the first one", "the loop over the operations does not start at the first operation: names used in the skipped operations stay unresolved (and their tables/columns unvalidated)"))
 		}
 	}
 	if n < 2 {
-		r.Anchor(id, fmt.Sprintf("ExpandNamedUUIDs indexes ops in %d loops, expected 2", n))
+		r.Anchor(id, fmt.Sprintf("ExpandNamedUUIDs and its helpers index ops in %d loops, expected 2", n))
 	}
 }
 
